@@ -81,13 +81,25 @@ class time_limit:
         return False
 
 
-def outcome(fn, limit=5.0):
+def outcome(fn, limit=5.0, retry=True):
     """run fn(); result is ("ok", value) | ("exc", ClassName) | ("timeout", None)"""
     try:
         with time_limit(limit):
             return ("ok", fn())
     except CaseTimeout:
-        return ("timeout", None)
+        if not retry:
+            return ("timeout", None)
+        # a stall of the machine is not a hang of the library: one retry with a much larger limit
+        # before the outcome "timeout" (which several checks count as a violation) is reported
+        try:
+            with time_limit(limit * 6):
+                return ("ok", fn())
+        except CaseTimeout:
+            return ("timeout", None)
+        except RecursionError:
+            return ("exc", "RecursionError")
+        except Exception as exc:  # pylint: disable=broad-except
+            return ("exc", type(exc).__name__)
     except RecursionError:
         return ("exc", "RecursionError")
     except Exception as exc:  # pylint: disable=broad-except
